@@ -24,6 +24,7 @@ contract(SH + "shave_bound", types=SB_T, result="bool", props=["C10", "C16", "C1
         ("C10.nonempty", f"{SS}[{T0}, dom_idx, MIN] <= {SS}[{T0}, dom_idx, MAX]"),
         ("C10.flags", f"forall(l, 0, {T0} + 1, forall(p, 0, P, {NEs}[l, p] == {NE0}[l, p]))"),
         ("C10.records", f"forall(l, 0, {T0}, {U_}[l, 0] == {U0}[l, 0] and {U_}[l, 1] == {U0}[l, 1])"),
+        ("C10.wake", f"implies(result, forall(p, 0, P, implies({NEs}[{T0}, p] and has(triggers[dom_idx, p], ite(bound == MAX, EVENT_MASK_MAX, EVENT_MASK_MIN) | ite({SS}[{T0}, dom_idx, MIN] == {SS}[{T0}, dom_idx, MAX], EVENT_MASK_GROUND, 0)), triggered_propagators[p])))"),
         ("C17.solver_stats", SOLVER_STATS_SAME),
         ("C17.backtracks", f"statistics[{BTN}] == old(statistics)[{BTN}] + 1"),
         ("C17.shaving_stats", "forall(k, 1, 5, statistics[k] == old(statistics)[k])"),
